@@ -56,9 +56,23 @@ let () =
               | Served p -> dec_of_n p
               | Rejected -> "-") keys)) (split_on ',' evs) in
       Printf.printf "%s\t%s\n" id (String.concat " " outs)
-    | id :: "Q" :: _ ->
-      (* the rejected merged command has no effect: z and a still exist, both later DELs remove one key *)
-      Printf.printf "%s\t%s\n" id (String.concat " " (List.init 5 (fun _ -> "rejected/1/1 1/1")))
+    | id :: "Q" :: pnum :: hostedl :: keys :: _ ->
+      (* rounds of (a, z, u): SET a, SET z, DEL a u, EXISTS z, EXISTS a, DEL a, DEL z on one store; the merged DEL
+         is executed only when ns_route_all serves every key, otherwise it is rejected with no effect *)
+      let ks = List.map bytes_of_hex (split_on ',' keys) in
+      let st = ns_hosting (n_of_dec pnum) (List.map (fun h -> n_of_int (int_of_string h)) (split_on ',' hostedl)) in
+      let rec rounds store = function
+        | a :: z :: u :: r ->
+          let store = a :: z :: store in
+          let (r1, store) = (match ns_route_all st (List.map route_key [a; u]) with
+                             | None -> ("rejected", store)
+                             | Some _ -> ("accepted", snd (del_keys [a; u] store))) in
+          let ez = exists_keys [z] store and ea = exists_keys [a] store in
+          let (d1, store) = del_keys [a] store in
+          let (d2, store) = del_keys [z] store in
+          Printf.sprintf "%s/%s/%s %s/%s" r1 (dec_of_n ez) (dec_of_n ea) (dec_of_n d1) (dec_of_n d2) :: rounds store r
+        | _ -> [] in
+      Printf.printf "%s\t%s\n" id (String.concat " " (rounds [] ks))
     | id :: "S" :: _ -> Printf.printf "%s\tok\n" id
     | id :: "E" :: pnum :: hostedl :: keys :: _ ->
       let ks = List.map bytes_of_hex (if keys = "" then [] else split_on ',' keys) in
